@@ -2517,6 +2517,33 @@ class OpHarness:
                 return
             from .values import Native as _Native
             h = _Native("no-handler-given", lambda it_, a, k: None)
+        ns = getattr(self, "nested_sync", None)
+        if ns is not None:
+            # scenario: a source THIS step subscribes (the next queued inner, the next member) notifies from inside its subscribe call - its
+            # handler runs nested in this step; whatever that nested handler subscribed or scheduled must still be live when the step returns
+            # (the rest of the step - typically storing the handle of the source that has already fired - must not release it)
+            if is_done:
+                raise PathEnd()
+            self.sync_inner, self.sync_inner_fired, self.sync_inner_made, self.sync_inner_raised = ns, False, [], False
+            self.sync_inner_disposed_before = 0
+            try:
+                it.call(h, args, {})
+            except PyExc:
+                pass
+            finally:
+                self.sync_inner = None
+                self.in_handler = False
+            ctx.results.clear()
+            if not self.sync_inner_fired or not self.sync_inner_made:
+                raise PathEnd()
+            later = w.disposed[self.sync_inner_disposed_before:]
+            lost = [d for d in self.sync_inner_made if any(x is d for x in later)]
+            nm2 = ("on_next", "on_error", "on_completed")[ns]
+            self.record(ctx, f"{uid}/a-source-it-subscribes-sends-{nm2}-from-inside-subscribe/what-that-subscribed-is-still-live-when-the-step-returns",
+                        not lost, kind="frame",
+                        detail=f"released by the rest of the step that was subscribing the source: {[d.name for d in lost]} "
+                               f"(e.g. the handle of the source that has already fired is stored over its successor's)")
+            return
         try:
             it.call(h, args, {})
         except PyExc as e:
@@ -2799,6 +2826,16 @@ class OpHarness:
                 for slot in (0, 2):
                     paths = explore(lambda ctx, _f=fam, _k=slot: self.run_family_sync(ctx, _f, _k))
                     self._collect(paths)
+            for fam in c.families:
+                # ... and the same when the subscribing step is a handler of a member (a completed inner starts the next queued one)
+                for slot in (0, 2):
+                    for ns in (0, 2):
+                        self.nested_sync = ns
+                        try:
+                            paths = explore(lambda ctx, _f=fam, _k=slot: self.run_family_handler(ctx, _f, _k))
+                        finally:
+                            self.nested_sync = None
+                        self._collect(paths)
             if len(c.sources) > 1 or getattr(c, "late_subscribe", False) or getattr(c, "sync_subscribe", None):
                 for srcname in c.sources:
                     for slot in getattr(c, "sync_subscribe", None) or (0, 2):
